@@ -69,7 +69,7 @@ def run(ctx):
                 ctx.violation(f"first method entered {first} != model's lookup {m}", case, kind="correspondence")
             distinct.add(hash(json.dumps(case)))
         # dependent programs, incl. call_next with other values
-        dp = D.gen_dep_program(ctx.rng, steer=ctx.rng.choice([None, None, "literals"]))
+        dp = D.gen_dep_program(ctx.rng, steer=ctx.rng.choice([None, None, "literals", "mixed", "keyed_other"]))
         for d in dp["defs"]:
             d["body"] = ctx.rng.choice(["ret", "ret", "nextv", "next"])
         wd = world_from(dp["spec"])
